@@ -1,3 +1,5 @@
+import RactorModel.Lemmas.GenJobMeta
+import RactorModel.Lemmas.GenFrame
 import RactorModel.Lemmas.Frames
 import RactorModel.Lemmas.FramesIo
 import RactorModel.Extracted
@@ -518,6 +520,88 @@ example : (orderedBindings "port" ["a", "b"] 1, dataFieldsOf ["a", "port", "b"] 
 #print axioms C19.reply_port_position
 #print axioms C19.reply_bridge_roundtrip
 
+
+
+/-! ### Translator tie (rs2lean): kernel-checked equivalence between the definitions that
+`extract/rs2lean.py` regenerates from the CURRENT Rust source on every run
+(`RactorModel/Generated/*.lean`) and the hand-written model functions the theorems above are
+about. A semantic change of the Rust function changes the generated text and these stop checking. -/
+
+section XlateTie
+open Generated.Frame GenFrame
+
+theorem generated_checked_frame_length_eq_model (len max : Nat) :
+    (checked_frame_length len max).mapError absErr = Codec.checkedFrameLength len max := by
+  unfold checked_frame_length Codec.checkedFrameLength
+  by_cases h1 : len > max
+  · simp [h1, Except.mapError, absErr]
+  · have hx : Rust.unwrap (Rust.tryFrom 64 9223372036854775807) = Codec.isizeMax := by decide
+    simp only [h1, decide_false, Bool.false_eq_true, ↓reduceIte, hx]
+    by_cases h2 : len > Codec.isizeMax
+    · simp [h2, Except.mapError, absErr]
+    · have h3 : len < 2 ^ 64 := by unfold Codec.isizeMax at h2; omega
+      simp [h2, Rust.tryFrom, h3, Rust.okOr, Except.mapError]
+
+theorem generated_frame_constants :
+    FRAME_READ_CHUNK_SIZE = Codec.chunkSize ∧ DEFAULT_MAX_INBOUND_FRAME_SIZE = Codec.defaultMaxFrame := by
+  decide
+
+/-- write side: `encode_network_message` appends the 8-byte big-endian length and the payload,
+i.e. `Codec.encodeFrame` (for a payload whose length fits `u64`, else the real code panics). -/
+theorem generated_encode_network_message_eq_model (msg buf : List UInt8) (h : msg.length < 2 ^ 64) :
+    encode_network_message msg buf = buf ++ Codec.encodeFrame msg := by
+  simp [encode_network_message, Codec.encodeFrame, Rust.unwrap, Rust.tryFrom, h, List.append_assoc]
+end XlateTie
+
+section XlateTieMeta
+open Generated.JobMeta GenJobMeta Codec
+
+/-- `JobOptions::into_bytes`: exactly 16 bytes, submit time then ttl (`None ↦ 0`), both `as u64`. -/
+theorem generated_job_options_into_bytes_eq_model (dflt o : JobOptions) :
+    JobOptions.into_bytes dflt o
+      = encodeBE 8 (o.submit_time % 2 ^ 64) ++ encodeBE 8 ((o.ttl.map (· % 2 ^ 64)).getD 0) := by
+  unfold JobOptions.into_bytes
+  simp only [Rust.cast, Nat.sub_zero]
+  exact copy_two (0 : UInt8) _ _ 8 (length_encodeBE _ _) (length_encodeBE _ _)
+
+/-- `Job::serialize_meta` = `Codec.encodeMeta` for metadata within the `u64` ranges. -/
+theorem generated_serialize_meta_eq_model (dflt : JobOptions) (j : Job)
+    (hs : j.options.submit_time < 2 ^ 64) (ht : ∀ t, j.options.ttl = some t → t < 2 ^ 64)
+    (hk : 16 + j.key.length < 2 ^ 64) :
+    (Job.serialize_meta dflt j).1 = encodeMeta (absMeta j.key j.options) := by
+  unfold Job.serialize_meta
+  simp only [generated_job_options_into_bytes_eq_model]
+  have hw : Rust.wAdd 64 16 j.key.length = 16 + j.key.length := by unfold Rust.wAdd; omega
+  rw [hw]
+  have hl : (encodeBE 8 (j.options.submit_time % 2 ^ 64)
+      ++ encodeBE 8 ((j.options.ttl.map (· % 2 ^ 64)).getD 0)).length = 16 := by
+    simp [length_encodeBE]
+  rw [copy_head_tail (0 : UInt8) _ j.key 16 hl]
+  have h1 : j.options.submit_time % 2 ^ 64 = j.options.submit_time := Nat.mod_eq_of_lt hs
+  have h2 : (j.options.ttl.map (· % 2 ^ 64)).getD 0 = j.options.ttl.getD 0 := by
+    cases h : j.options.ttl with
+    | none => rfl
+    | some t => simp [Nat.mod_eq_of_lt (ht t h)]
+  simp [encodeMeta, absMeta, h1, h2]
+
+/-- `Job::deserialize_meta` (+ `JobOptions::from_bytes` on the 16-byte prefix) = `Codec.decodeMeta`,
+for every input and every default value. -/
+theorem generated_deserialize_meta_eq_model (dflt : JobOptions) (ob : Option (List UInt8)) :
+    (match Job.deserialize_meta dflt ob with
+     | .ok (k, o) => some (absMeta k o)
+     | .error _ => none) = decodeMeta ob := by
+  cases ob with
+  | none => rfl
+  | some bs =>
+    unfold Job.deserialize_meta decodeMeta
+    by_cases h : bs.length < 16
+    · simp [h]
+    · have hl : (List.take 16 bs).length = 16 := by simp; omega
+      simp only [h, decide_false, Bool.false_eq_true, ↓reduceIte, JobOptions.from_bytes, hl, ne_eq,
+        not_true_eq_false, absMeta]
+      simp [List.take_take, List.drop_take]
+end XlateTieMeta
+
 end C19
 
 #print axioms C19.int_roundtrip
@@ -550,3 +634,10 @@ end C19
 #print axioms C19.chunk_size_value
 #print axioms C19.src_frame_chunk
 #print axioms C19.src_default_max_frame
+-- rs2lean tie
+#print axioms C19.generated_checked_frame_length_eq_model
+#print axioms C19.generated_frame_constants
+#print axioms C19.generated_encode_network_message_eq_model
+#print axioms C19.generated_job_options_into_bytes_eq_model
+#print axioms C19.generated_serialize_meta_eq_model
+#print axioms C19.generated_deserialize_meta_eq_model
